@@ -1224,7 +1224,11 @@ def monitor_world(ctx, w):
             return
         # cadence per direction while both ends are in service
         sconn = connects[0][2]
-        si_s = rb.r(sconn.send_interval) + 1
+        # the documented send interval of a connection (1/60 s), not whatever the connection object under test says: the bound is the
+        # property's "keep-alive interval plus one send tick", and a connection that paces itself more slowly must be seen to break it
+        si_s = 18
+        if rb.r(sconn.send_interval) + 1 != si_s:
+            ctx.count("c:server connection send_interval differs from 1/60 s")
         si_c = sc["si_c"] or 18
         ka_hist = [(tc, sc["final"]["ka"])] if not w.ka_changes else None
         t_drop = next((t for (t, st, lr) in ticks if t >= cut and st == 5), None)
